@@ -90,17 +90,22 @@ def kf_triggers(evs):
         if be["op"] == "install" and fl.get("clientOnly") and fl.get("tplDry") in ("none", "false", "server"):
             # L29: helm template --dry-run=none|false|server renders with cluster access (lookup, discovery)
             tr.append(("KF-L29-template-with-explicit-dry-run-value-contacts-cluster", b))
-        if be["op"] == "install" and not fl["dryRun"]:
+        # (upgrade --install over no history, or over an uninstalled one, IS an install)
+        eop = be["op"]
+        if eop == "upgrade" and fl.get("install") and (
+                not pre["store"] or pre["store"][str(max(int(k) for k in pre["store"]))]["st"] == "uninstalled"):
+            eop = "install"
+        if eop == "install" and not fl["dryRun"]:
             # L2i: the write that marks the new revision deployed fails and is swallowed
             if ok and calls and calls[-1]["inj"] and calls[-1]["kind"] == "store" and calls[-1]["verb"] == "update":
                 tr.append(("KF-L2-install-final-write-swallowed", e))
             # L1: --replace while an older revision is still marked deployed
-            if fl["replace"]:
+            if fl["replace"] or be["op"] == "upgrade":        # (pkg/cmd sets Replace on the install it delegates to)
                 dep = revs_with(pre, "deployed")
                 allr = sorted(int(k) for k in pre["store"])
                 if dep and allr and dep[-1] != allr[-1]:
                     tr.append(("KF-L1-replace-keeps-older-deployed", b))
-        if be["op"] == "upgrade" and not fl["dryRun"]:
+        if eop == "upgrade" and not fl["dryRun"]:
             for x in injs:
                 # L2u: the write that supersedes the original fails and is swallowed
                 if x["kind"] == "store" and x["verb"] == "update" and created and x["rev"] not in created and ok:
